@@ -462,6 +462,11 @@ class TextV:
         self.a = a            # input text argument index
 
 
+class ListV:
+    def __init__(self, a):
+        self.a = a            # input list argument (zero terminated array of unsigned long)
+
+
 class BufV:
     def __init__(self, loc):
         self.loc = loc        # output text buffer location
@@ -469,6 +474,11 @@ class BufV:
 
 class MsgV:
     pass
+
+
+class RecV:
+    def __init__(self, loc):
+        self.loc = loc
 
 
 class Loc:
@@ -562,6 +572,11 @@ class Exec:
                         j = self.new_out(dict(lv=var, kind='text', cxx='char *', name=loc.name, size=None))
                         loc.out = j
                         c.sig.params.append(('buf', var, base))
+                    continue
+                if inner[0] == 'int' and inner[1].w == 64 and isconst and self.kind == 'S':
+                    a = self.new_in(dict(lv=var, kind='list', cxx='const unsigned long *', name=loc.name, arr=None))
+                    loc.val = ListV(a)
+                    c.sig.params.append(('list', var, base))
                     continue
                 raise Untr('pointer parameter %s' % qt)
             c.sig.params.append(('val', var, base))
@@ -778,7 +793,35 @@ class Exec:
             if ty[0] == 'arr':
                 return IntV(('Const', ty[2]), CT(64, False))
             raise Untr('sizeof')
+        if k == 'CXXOperatorCallExpr':
+            callee = n['inner'][0]
+            while callee.get('kind') in ('ImplicitCastExpr',):
+                callee = callee['inner'][0]
+            if callee.get('referencedDecl', {}).get('name') == 'operator=' and len(n['inner']) == 3:
+                loc = self.lvalue(n['inner'][1])
+                if loc.ty[0] == 'rec':
+                    return self.assign_record(loc, n['inner'][2])
+            raise Untr('operator call')
         if k == 'CXXConstructExpr' or k == 'CXXTemporaryObjectExpr':
+            # copy of a record (argument passed by value)
+            if len(n.get('inner', [])) == 1:
+                src = n['inner'][0]
+                while src.get('kind') in ('ImplicitCastExpr', 'MaterializeTemporaryExpr') and src.get('castKind', 'NoOp') == 'NoOp':
+                    src = src['inner'][0]
+                try:
+                    l = self.lvalue(src)
+                except Untr:
+                    l = None
+                if l is not None and l.ty[0] == 'rec':
+                    return RecV(self.copy_rec(l))
+                # converting constructor (tN2kDD206(uint16_t)): a fresh record with that one member
+                ty = self.w.typeof(n)
+                if ty[0] == 'rec':
+                    fld = self.ctor_single_member(ty[1])
+                    if fld is not None:
+                        tmp = self.fresh_rec(ty, 'tmp')
+                        self.assign(tmp.fields[fld], self.ev(n['inner'][0]))
+                        return RecV(tmp)
             raise Untr('constructor call')
         raise Untr('expression %s' % k)
 
@@ -1014,7 +1057,37 @@ class Exec:
                 raise Untr('member %s of %s' % (fld, loc.name))
             self.assign(loc.fields[fld], v)
             return v
+        v = self.ev(rnode)
+        if isinstance(v, RecV):
+            for k, f in (v.loc.fields or {}).items():
+                if k in (loc.fields or {}) and f.val is not None and loc.fields[k].ty[0] in ('int', 'double'):
+                    self.assign(loc.fields[k], f.val)
+            return v
         raise Untr('record assignment')
+
+    def fresh_rec(self, ty, name):
+        loc = Loc(ty, name)
+        loc.fields = {}
+        rec = self.w.records[ty[1]]
+        for fd in rec.get('inner', []):
+            if fd.get('kind') == 'FieldDecl' and fd.get('name'):
+                try:
+                    fty = self.w.resolve(fd['type'].get('desugaredQualType') or fd['type']['qualType'])
+                except Untr:
+                    continue
+                loc.fields[fd['name']] = Loc(fty, name + '.' + fd['name'])
+        return loc
+
+    def copy_rec(self, l):
+        n = Loc(l.ty, l.name + "'")
+        n.fields = {}
+        for k, f in (l.fields or {}).items():
+            g = Loc(f.ty, f.name)
+            g.val = self.read_loc(f) if (f.val is not None or f.inarg is not None) else None
+            if f.fields is not None:
+                g = self.copy_rec(f)
+            n.fields[k] = g
+        return n
 
     def ctor_single_member(self, recname):
         rec = self.w.records.get(recname)
@@ -1256,6 +1329,9 @@ class Exec:
                 if a.get('kind') == 'CXXDefaultArgExpr':
                     a = self.default_arg(p)
                 v = self.ev(a)
+                if isinstance(v, RecV):
+                    newenv[p['id']] = v.loc
+                    continue
                 l = Loc(pty, p.get('name', '?'))
                 if pty[0] == 'int':
                     if not isinstance(v, IntV):
@@ -1319,18 +1395,11 @@ class Exec:
                         c.emit(('SetIdx', v.e))
                     continue
                 if ty[0] == 'rec':
-                    loc.fields = {}
-                    rec = self.w.records[ty[1]]
-                    for fd in rec.get('inner', []):
-                        if fd.get('kind') == 'FieldDecl' and fd.get('name'):
-                            try:
-                                fty = self.w.resolve(fd['type'].get('desugaredQualType') or fd['type']['qualType'])
-                            except Untr:
-                                continue
-                            loc.fields[fd['name']] = Loc(fty, loc.name + '.' + fd['name'])
+                    loc = self.fresh_rec(ty, d['name'])
+                    c.env[d['id']] = loc
                     if init:
                         node = init[0]
-                        if node.get('kind') == 'CXXConstructExpr' and not node.get('inner'):
+                        if node.get('kind') == 'CXXConstructExpr' and all(x.get('kind') == 'CXXDefaultArgExpr' for x in node.get('inner', [])):
                             fld = self.ctor_single_member(ty[1])
                             dflt = self.ctor_default(ty[1])
                             if fld is not None and dflt is not None:
@@ -1354,11 +1423,51 @@ class Exec:
                 raise Untr('return in the middle of a block')
             c.returned = True
             c.retval = v
-        elif k in ('ForStmt', 'WhileStmt', 'DoStmt', 'SwitchStmt'):
+        elif k == 'ForStmt':
+            self.for_list(s)
+        elif k in ('WhileStmt', 'DoStmt', 'SwitchStmt'):
             raise Untr('loop / switch (%s)' % k)
         else:
             before = c.nslot
             self.ev(s)
+
+    def for_list(self, s):
+        """the one repeated-record shape of the setters:  for (int i=0; (X=*(&L[i]))!=0; i++) N2kMsg.AddNByte..(X);"""
+        def strip(x):
+            while x.get('kind') in ('ImplicitCastExpr', 'ParenExpr', 'CStyleCastExpr'):
+                x = x['inner'][-1]
+            return x
+        try:
+            init, _, cond, inc, body = s['inner']
+            ivar = init['inner'][0]
+            assert init['kind'] == 'DeclStmt' and const_of_node(ivar['inner'][0]) == 0
+            assert cond['kind'] == 'BinaryOperator' and cond['opcode'] == '!=' and const_of_node(cond['inner'][1]) == 0
+            asg = strip(cond['inner'][0])
+            assert asg['kind'] == 'BinaryOperator' and asg['opcode'] == '='
+            xref = strip(asg['inner'][0])
+            rhs = strip(asg['inner'][1])
+            assert rhs['kind'] == 'UnaryOperator' and rhs['opcode'] == '*'
+            adr = strip(rhs['inner'][0])
+            assert adr['kind'] == 'UnaryOperator' and adr['opcode'] == '&'
+            sub = strip(adr['inner'][0])
+            assert sub['kind'] == 'ArraySubscriptExpr'
+            lref, iref = strip(sub['inner'][0]), strip(sub['inner'][1])
+            assert iref['referencedDecl']['id'] == ivar['id']
+            assert inc['kind'] == 'UnaryOperator' and inc['opcode'] == '++' and strip(inc['inner'][0])['referencedDecl']['id'] == ivar['id']
+            lst = self.read_loc(self.c.env[lref['referencedDecl']['id']])
+            assert isinstance(lst, ListV)
+            while body.get('kind') == 'CompoundStmt' and len(body.get('inner', [])) == 1:
+                body = body['inner'][0]
+            assert body['kind'] == 'CXXMemberCallExpr'
+            callee = body['inner'][0]
+            assert self.lvalue(callee['inner'][0]).ty == ('msg',)
+            nb = {'AddByte': 1, 'Add2ByteInt': 2, 'Add2ByteUInt': 2, 'Add3ByteInt': 3, 'Add4ByteUInt': 4}[callee['name']]
+            arg = strip(body['inner'][1])
+            assert arg['referencedDecl']['id'] == xref['referencedDecl']['id']
+        except (AssertionError, KeyError, IndexError, ValueError, TypeError):
+            raise Untr('loop (not the zero-terminated list shape)')
+        self.need('S')
+        self.c.emit(('WList', nb, lst.a))
 
     def ctor_default(self, recname):
         rec = self.w.records.get(recname)
@@ -1570,7 +1679,7 @@ def coq_w(s):
         return '(WInt %d %s)' % (s[1], coq_e(s[2]))
     if k == 'WDouble':
         return '(WDouble %d %s %s %s)' % (s[1], bs(s[2]), zs(s[3]), coq_d(s[4]))
-    if k in ('WStr', 'WAISStr', 'WVarStr'):
+    if k in ('WStr', 'WAISStr', 'WVarStr', 'WList'):
         return '(%s %d %d)' % (k, s[1], s[2])
     if k == 'If':
         return '(WIf %s %s %s)' % (coq_e(s[1]), coq_ws(s[2]), coq_ws(s[3]))
